@@ -6,6 +6,9 @@ and an instruction assembler driven by small tuples.
 """
 import struct
 
+# when set, f32/f64 immediates are written byte-reversed (what a reader that assumes the opposite byte order sees)
+FLOAT_IMM_REVERSED = False
+
 I32, I64, F32, F64 = 0x7F, 0x7E, 0x7D, 0x7C
 FUNCREF = 0x70
 
@@ -169,9 +172,9 @@ def assemble(instrs):
                 v -= 1 << 64
             out += bytes([0x42]) + sleb(v)
         elif op == "f32.const":
-            out += bytes([0x43]) + struct.pack("<I", ins[1])   # raw bits
+            out += bytes([0x43]) + struct.pack(">I" if FLOAT_IMM_REVERSED else "<I", ins[1])   # raw bits
         elif op == "f64.const":
-            out += bytes([0x44]) + struct.pack("<Q", ins[1])   # raw bits
+            out += bytes([0x44]) + struct.pack(">Q" if FLOAT_IMM_REVERSED else "<Q", ins[1])   # raw bits
         elif op in ("memory.size", "memory.grow"):
             out += bytes([OPS[op], 0x00])
         elif op == "raw":
